@@ -12,6 +12,7 @@ import (
 	"reflect"
 	"sort"
 	"strings"
+	"sync/atomic"
 	"time"
 
 	"github.com/osteele/liquid"
@@ -33,11 +34,11 @@ var (
 	TBytes = &T{C: 'y'}
 )
 
-func TInt(k int) *T    { return &T{C: 'i', K: k} }
-func TFlt(k int) *T    { return &T{C: 'd', K: k} }
-func TSlice(e *T) *T   { return &T{C: 'l', E: e} }
-func TArr(e *T) *T     { return &T{C: 'r', E: e} }
-func TMap(k, v *T) *T  { return &T{C: 'm', KT: k, VT: v} }
+func TInt(k int) *T   { return &T{C: 'i', K: k} }
+func TFlt(k int) *T   { return &T{C: 'd', K: k} }
+func TSlice(e *T) *T  { return &T{C: 'l', E: e} }
+func TArr(e *T) *T    { return &T{C: 'r', E: e} }
+func TMap(k, v *T) *T { return &T{C: 'm', KT: k, VT: v} }
 
 func (t *T) Enc() string {
 	switch t.C {
@@ -149,9 +150,14 @@ type V struct {
 }
 
 // constructors
-func VNil() *V             { return &V{Kind: 'n'} }
-func VBool(b bool) *V      { if b { return &V{Kind: 't'} }; return &V{Kind: 'f'} }
-func VInt(k int, n int64) *V { return &V{Kind: 'i', IK: k, I: big.NewInt(n)} }
+func VNil() *V { return &V{Kind: 'n'} }
+func VBool(b bool) *V {
+	if b {
+		return &V{Kind: 't'}
+	}
+	return &V{Kind: 'f'}
+}
+func VInt(k int, n int64) *V    { return &V{Kind: 'i', IK: k, I: big.NewInt(n)} }
 func VBig(k int, n *big.Int) *V { return &V{Kind: 'i', IK: k, I: n} }
 func VFlt(k int, f float64) *V {
 	if math.IsNaN(f) || math.IsInf(f, 0) || (f == 0 && math.Signbit(f)) {
@@ -160,17 +166,17 @@ func VFlt(k int, f float64) *V {
 	r := new(big.Rat).SetFloat64(f)
 	return &V{Kind: 'd', IK: k, Num: new(big.Int).Set(r.Num()), Den: new(big.Int).Set(r.Denom())}
 }
-func VStr(s string) *V     { return &V{Kind: 's', S: s} }
-func VBytes(s string) *V   { return &V{Kind: 'b', S: s} }
+func VStr(s string) *V         { return &V{Kind: 's', S: s} }
+func VBytes(s string) *V       { return &V{Kind: 'b', S: s} }
 func VSlice(t *T, xs ...*V) *V { return &V{Kind: 'L', Ty: t, Xs: xs} }
 func VArr(t *T, xs ...*V) *V   { return &V{Kind: 'A', Ty: t, Xs: xs} }
-func VAnys(xs ...*V) *V    { return VSlice(TAny, xs...) }
+func VAnys(xs ...*V) *V        { return VSlice(TAny, xs...) }
 func VMap(k, v *T, kvs ...[2]*V) *V {
 	m := &V{Kind: 'M', KTy: k, VTy: v, KVs: kvs}
 	m.sortKVs()
 	return m
 }
-func VStrMap(kvs ...[2]*V) *V { return VMap(TStr, TAny, kvs...) }
+func VStrMap(kvs ...[2]*V) *V   { return VMap(TStr, TAny, kvs...) }
 func VMapSlice(kvs ...[2]*V) *V { return &V{Kind: 'S', KVs: kvs} }
 func VKeyed(fs ...Field) *V {
 	// an IterationKeyedMap is a Go map: the canonical field order is sorted by key
@@ -178,13 +184,13 @@ func VKeyed(fs ...Field) *V {
 	sort.SliceStable(fs, func(i, j int) bool { return fs[i].Name < fs[j].Name })
 	return &V{Kind: 'K', Fs: fs}
 }
-func VRange(a, b int64) *V { return &V{Kind: 'R', A: a, B: b} }
-func VPtr(v *V) *V         { return &V{Kind: 'P', In: v} }
-func VNilPtr() *V          { return &V{Kind: 'N'} }
-func VDrop(v *V) *V        { return &V{Kind: 'D', In: v} }
-func VStruct(fs ...Field) *V { return &V{Kind: 'T', Fs: fs} }
-func VTime(u int64) *V     { return &V{Kind: 'U', A: u} }
-func KV(k, v *V) [2]*V     { return [2]*V{k, v} }
+func VRange(a, b int64) *V     { return &V{Kind: 'R', A: a, B: b} }
+func VPtr(v *V) *V             { return &V{Kind: 'P', In: v} }
+func VNilPtr() *V              { return &V{Kind: 'N'} }
+func VDrop(v *V) *V            { return &V{Kind: 'D', In: v} }
+func VStruct(fs ...Field) *V   { return &V{Kind: 'T', Fs: fs} }
+func VTime(u int64) *V         { return &V{Kind: 'U', A: u} }
+func KV(k, v *V) [2]*V         { return [2]*V{k, v} }
 func SKV(k string, v *V) [2]*V { return [2]*V{VStr(k), v} }
 
 // keyLess is the canonical entry order of an unordered map: numbers numerically, strings
@@ -520,7 +526,7 @@ func (v *V) Realise() any {
 		p.Elem().Set(reflect.ValueOf(x))
 		return p.Interface()
 	case 'N':
-		return (*int)(nil)
+		return nilPointer(int(nilPtrFlavor.Load()))
 	case 'D':
 		return dropV{v.In.Realise()}
 	case 'T':
@@ -623,4 +629,28 @@ func Reify(x any) *V {
 		return out
 	}
 	return &V{Kind: 'X', S: fmt.Sprintf("%T", x)}
+}
+
+// nilPtrFlavor selects the pointee type of the nil pointers that Realise builds ('N' carries no type: every
+// nil pointer is the Liquid nil). RealiseEnv derives it from the environment's encoding, so that a case
+// always gets the same Go values and all flavours occur across a run.
+var nilPtrFlavor atomic.Int32
+
+type nilPtrStruct struct {
+	A any `liquid:"a"`
+	B int
+}
+
+func nilPointer(flavor int) any {
+	switch flavor % 5 {
+	case 1:
+		return (*nilPtrStruct)(nil)
+	case 2:
+		return (*[]any)(nil)
+	case 3:
+		return (*map[string]any)(nil)
+	case 4:
+		return (*string)(nil)
+	}
+	return (*int)(nil)
 }
